@@ -285,11 +285,28 @@ fn main() {
     sink.merge(struct_sweep(&run, &[&DTLS_RECORD], &recs, run.tier.pick(1, 2), &sfx, 48, &extra));
     let magic: Vec<vcommon::en::W> = cat::magic_hellos().into_iter().filter(|w| w.lens.first().map_or(false, |l| l.label == "dtls_length")).collect();
     sink.merge(struct_sweep(&run, &[&DTLS_HANDSHAKE], &magic, 0, &sfx, 64, &extra));
-    for style in [1u8, 3, 4] {
+    for style in [1u8, 3, 4, 6, 7, 8] {
         use vcommon::en::with_fill_style as wfs;
         sink.merge(struct_sweep(&run, &[&DTLS_HANDSHAKE], &wfs(style, cat::dtls_handshake_messages), 0, &sfx, 64, &extra));
         sink.merge(struct_sweep(&run, &[&DTLS_RECORD], &wfs(style, cat::dtls_records), 0, &sfx, 48, &extra));
     }
+    let with_ext: Vec<vcommon::en::W> = cat::hellos_with_extension_lists().into_iter().filter(|w| w.lens.first().map_or(false, |l| l.label == "dtls_length")).collect();
+    sink.merge(struct_sweep(&run, &[&DTLS_HANDSHAKE], &with_ext, 0, &sfx, 64, &extra));
+    // every fragment / body size
+    let b_frag = |n: usize| cat::dtls_hs(11, 3, Some(70000), 5, |w| {
+        w.fill(n, 0xf7);
+    });
+    sink.merge(size_sweep(&run, &[&DTLS_HANDSHAKE], 66000, &b_frag, &extra));
+    let b_cke = |n: usize| cat::dtls_hs(16, 3, None, 0, |w| {
+        w.fill(n, 0x10);
+    });
+    sink.merge(size_sweep(&run, &[&DTLS_HANDSHAKE], 66000, &b_cke, &extra));
+    let b_rec = |n: usize| cat::dtls_record(0x16, 0xfefd, 1, 2, |w| {
+        w.append(&cat::dtls_hs(14, 0, None, 0, |w| {
+            w.fill(n, 0x0e);
+        }));
+    });
+    sink.merge(size_sweep(&run, &[&DTLS_RECORD], 16628, &b_rec, &extra));
     let cookies: Vec<vcommon::en::W> = (0..=255usize)
         .flat_map(|c| {
             [
